@@ -376,6 +376,75 @@ def evaluate(c, exe, groups, refok, tier, count=True):
     c.extra["entry_point_runs"] = c.extra.get("entry_point_runs", 0) + sum(len(v[0]) for v in gv)
 
 
+def mpi_backend(c, exe, groups, tier):
+    """'identical across all exact variants and backends': the five MPI entry points (harness/mpi/c04.cpp under the real mpiexec; every run there is followed by a
+    second call on a reversed-rank communicator) on a sample of the base and transformed graphs of this run, with process counts chosen so that ranks run out of
+    work, slices are uneven and several signed edges / vertices fall into one slice (P = 2, 4 and 5; thorough also 3, 6, 7).  Rank 0's returned value must equal what the
+    sequential signed entry point returns on the same graph (C04 ties the MPI variants to their models; this stream is the cross-backend clause of C08)."""
+    if os.environ.get("VERIF_SANITIZE") and not os.environ.get("VERIF_SANITIZE_MPI"):
+        return
+    import shutil
+    from props import c04
+    if not shutil.which(c04.MPIEXEC[0]):
+        c.notes.append("mpiexec not found: the MPI backend is not run by C08 (C04 would report it)"); return
+    mexe = c.harness(**c04.HARNESS)
+    if not mexe: return
+    rng = random.Random(c.seed * 7919 + 4408)          # own stream: the other generators of this check are not disturbed
+    seen = set(); pool = []
+    for (name, coefs, bases, g) in groups:
+        k = gen.graph_tokens(g)
+        if k in seen or not g[1] or is64(g): continue
+        seen.add(k)
+        if g[0] <= 40 and len(g[1]) <= 90: pool.append((name, g))
+    rng.shuffle(pool)
+    dense = [x for x in pool if len(x[1][1]) >= 2 * x[1][0]]           # phases with at least |V| signed edges need dense graphs
+    want = 90 if tier == "quick" else 500
+    pick = (dense[:want // 3] + [x for x in pool if x not in dense[:want // 3]])[:want]
+    # a few complete graphs with distinct weights on 7..9 vertices: every (P, n) combination of the vertex-slice branch incl. (P-1)*ceil(n/P) > n
+    for n in (7, 8, 9):
+        es = [(u, v, 1 + rng.randint(0, 60)) for u in range(n) for v in range(u + 1, n)]
+        pick.append(("complete", (n, es)))
+    seq = lib.run_lines([exe], ["M D 0 signed " + gen.graph_tokens(g) for _, g in pick], timeout=1500)
+    expect = []
+    for o in seq:
+        try: expect.append(int(parse_out(o)["signed"][0]))
+        except Exception: expect.append(None)
+    algs = ["signed", "fvs", "iso", "fvs_tbb", "iso_tbb"]
+    Ps = [2, 4, 5] if tier == "quick" else [2, 3, 4, 5, 6, 7]
+    jobs = []
+    for P in Ps:
+        lines = []; meta = []
+        for j, (name, g) in enumerate(pick):
+            if expect[j] is None: continue
+            for a in (algs if (j + P) % 3 == 0 or name == "complete" else ["signed", algs[1 + (j + P) % 4]]):
+                ty = "I" if gen.int_domain_ok(g) and (j + P) % 2 else "D"
+                lines.append("%s %s 0 %d %s" % (a, ty, rng.randint(0, 10 ** 6) if j % 2 else 0, gen.graph_tokens(g))); meta.append((j, a, ty))
+        jobs.append((P, lines, meta))
+    import concurrent.futures as cf
+    with cf.ThreadPoolExecutor(max_workers=3) as ex:
+        res = list(ex.map(lambda jb: c04.run_batch(mexe, jb[0], jb[1], "c08mpi_p%d" % jb[0], 1500), jobs))
+    nrep = 0; nrun = 0
+    for (P, lines, meta), results in zip(jobs, res):
+        for (j, a, ty), line, r in zip(meta, lines, results):
+            name, g = pick[j]
+            c.count("MPI P=%d %s" % (P, line), len(g[1]) - g[0] + gen.components(g[0], g[1]) >= 2, bucket="mpi backend P=%d %s" % (P, a))
+            nrun += 1
+            why = None
+            if isinstance(r, tuple):
+                if r[0] == "SKIPPED": continue
+                why = "mcb_sva_%s_mpi with %d ranks did not return (%s): %s" % (a, P, r[0], " | ".join(str(x)[:160] for x in r[1] if x)[:500] + " " + str(r[2])[-300:])
+            else:
+                f = lib.fields(r[0], ["ROOTS", "EORD", "RET", "N", "CYC", "RANK", "EMITTED", "DONE"])
+                try: v = int(f["RET"][0])
+                except Exception: v = None
+                if v != expect[j]:
+                    why = "mcb_sva_%s_mpi with %d ranks (%s weights) returns %s on rank 0, the sequential signed entry point returns %d on the same weighted graph" % (a, P, ty, v if v is not None else r[0][:120], expect[j])
+            if why and nrep < 3:
+                nrep += 1
+                c.violation("exact backends disagree: " + why, {"component": "c08mpi", "case": line, "P": P, "expected": expect[j], "relation": "all exact variants and backends agree"}, True)
+    c.extra["mpi_backend_runs"] = nrun
+
+
 def make_groups(rng, nbase, maxn, big, per_base, w64=False):
     bases = []
     while len(bases) < nbase:
@@ -429,9 +498,11 @@ def check(tier, seed):
             c.extra["relation_instances_64bit_weights"] = len(g64)
             evaluate(c, exe, groups, refok, tier)
             evaluate(c, exe, g64, refok, tier)            # (a run of its own: the third opinions below are capped per run)
+            mpi_backend(c, exe, groups, tier)
         else:
             groups = make_groups(c.rng, 500, 14, False, (8, 4)) + make_groups(c.rng, 220, 40, False, (6, 4))
             evaluate(c, exe, groups, refok, tier)
+            mpi_backend(c, exe, groups, tier)
             groups = make_groups(c.rng, 44, 100, True, (5, 3)) + make_groups(c.rng, 26, 300, True, (4, 2))
             evaluate(c, exe, groups, refok, tier)
             g64 = make_groups(random.Random(seed * 7919 + 808), 400, 14, False, (8, 4), w64=True) + make_groups(random.Random(seed * 7919 + 809), 120, 30, False, (6, 4), w64=True)
@@ -442,7 +513,7 @@ def check(tier, seed):
     return c.finish(
         assumptions=["exact domain: simple graphs, positive integer weights (doubles = integers times a power of two, all sums below 2^53; int weights only when (m+4)*sum < 2^31; long long weights with (m+4)*sum < 2^63)",
                      "the *_tbb entry points are run on the real oneTBB scheduler with 4 workers (whatever schedule happens); controlled schedules are C03's business",
-                     "MPI entry points are not run here (C04)"],
+                     "the MPI entry points are run for the cross-backend clause only (rank 0's returned value against the sequential signed entry point, 2..7 processes); their exact tie to the models is C04's"],
         trusted_extra=["tools/props/c08.py: the transformations themselves (renumbering, union, subdivision, ... are implemented in Python and trusted to be what they say)"],
         explanation="The Coq theorems are about the specification: the optimum is unique, scales with 2^j, is unchanged by isolated vertices, renumbering, edge reordering, pendant trees, "
                     "bridges and subdivision, is additive over disjoint unions, and any two runs of the support-vector loop with minimum searches return it (so every relation transfers to returned "
@@ -455,6 +526,26 @@ def replay(path):
     exe, err = lib.build_cpp(name="c08", srcs=["c08.cpp"], libs=LIBS)
     if exe is None:
         print(err); print("VIOLATION property=%s replay=%s" % (PID, path)); return 1
+    if r.get("component") == "c08mpi":
+        from props import c04
+        mexe, merr = lib.build_cpp(**c04.HARNESS)
+        if mexe is None:
+            print(merr); print("VIOLATION property=%s replay=%s" % (PID, path)); return 1
+        line = r["case"]; t = line.split()
+        seq = lib.run_lines([exe], ["M D 0 signed " + " ".join(t[4:])], par=1)[0]
+        res = c04.run_batch(mexe, r["P"], [line], "c08mpi_replay", 600)[0]
+        print("case :", line[:400]); print("ranks:", r["P"]); print("sequential signed:", seq); print("MPI  :", str(res)[:600])
+        bad = True
+        try:
+            want = int(parse_out(seq)["signed"][0])
+            got = int(lib.fields(res[0], ["ROOTS", "EORD", "RET", "N", "CYC", "RANK", "EMITTED", "DONE"])["RET"][0]) if not isinstance(res, tuple) else None
+            bad = got != want
+        except Exception as ex:
+            print("unparsable:", ex)
+        print("judge:", "backends disagree" if bad else None)
+        if bad:
+            print("VIOLATION property=%s replay=%s" % (PID, path)); return 1
+        return 0
     coefs, bases, g = parse_relation_line(r["case"])
     bad = None
     def runs(gr):
